@@ -64,6 +64,7 @@ var controlTable = []control{
 	{"C04", "blank-before-paren-in-number", "dependency/parser.go", "case ' ', '\\t', '\\r', '\\n':\n\t\t\teatWhitespace(input)\n\t\t\tif input.Peek() != ')' {\n\t\t\t\treturn errors.New(\"Trailing garbage after a Version number\")\n\t\t\t}\n\t\t\treturn nil\n", "", "C04-TOKENS"},
 	{"C04", "error-of-relation-dropped", "dependency/parser.go", "err := parseRelation(input, ret)\n\t\tif err != nil {\n\t\t\treturn err\n\t\t}", "parseRelation(input, ret)", "C04-"},
 	// C05
+	{"C05", "empty-cpu-rendered-as-nothing-again", "dependency/string.go", "a.CPU != \"any\" && a.CPU != \"all\" && a.CPU != \"\" {", "a.CPU != \"any\" && a.CPU != \"all\" {", "C05-FIXPOINT"},
 	{"C05", "substvar-flag-ignored", "dependency/string.go", "if possi.Substvar {\n\t\treturn \"${\" + possi.Name + \"}\"\n\t}\n", "", "C05-"},
 	{"C05", "qualifier-not-rendered", "dependency/string.go", "if possi.Arch != nil {\n\t\tstr += \":\" + possi.Arch.String()\n\t}\n", "", "C05-"},
 	{"C05", "stage-negation-not-rendered", "dependency/string.go", "if stage.Not {\n\t\treturn \"!\" + stage.Name\n\t}\n", "", "C05-"},
@@ -294,6 +295,7 @@ func runControl(prop, name string) int {
 		// rules that re-load the repository themselves (GOARCH=386 load) must see the overlay too
 		activeOverlay = ov
 		registry[prop](p, rp)
+		reportGlobalMutations(rp, prop)
 	}()
 	for _, r := range rp.Rules {
 		for _, in := range r.Instances {
